@@ -5,6 +5,7 @@ go 1.18
 require (
 	github.com/alpacahq/marketstore/v4 v4.0.0
 	github.com/vmihailenco/msgpack v4.0.4+incompatible
+	go.uber.org/zap v1.15.0
 	google.golang.org/grpc v1.46.2
 )
 
@@ -23,7 +24,6 @@ require (
 	github.com/prometheus/procfs v0.1.3 // indirect
 	go.uber.org/atomic v1.6.0 // indirect
 	go.uber.org/multierr v1.5.0 // indirect
-	go.uber.org/zap v1.15.0 // indirect
 	golang.org/x/net v0.0.0-20220722155237-a158d28d115b // indirect
 	golang.org/x/sys v0.0.0-20220722155257-8c9f86f7a55f // indirect
 	golang.org/x/text v0.3.7 // indirect
